@@ -19,6 +19,7 @@ import core
 import findings
 import findings_c04
 import gen
+import oracle
 
 PID = "C04"
 TRUSTED = [
@@ -889,6 +890,32 @@ def matmul_rank_grid(rng):
                 return spec_of(d, f, ca)
 
             out.append({"op": "matmul" if rng.random() < 0.7 else "@", "a": sp(da, fa), "b": sp(db, fb)})
+        # a batch axis of length 0 in one operand against length 1 (or absent) in the other: the broadcast batch extent is 0
+        if max(ra, rb) >= 3 and min(ra, rb) >= 2:
+            for zero_in in ("a", "b"):
+                k, m, n = 4, 2, 5
+                nba, nbb = max(ra - 2, 0), max(rb - 2, 0)
+                ba = tuple(int(v) for v in rng.choice([1, 2, 3], size=nba))
+                bb = tuple((1 if rng.random() < 0.5 else e) for e in ba[len(ba) - nbb:]) if nbb <= nba else tuple(int(v) for v in rng.choice([1, 2], size=nbb - nba)) + tuple(ba)
+                ba, bb = list(ba), list(bb)
+                # put the 0 on the last batch axis of one side and a 1 on the other side's matching axis (if it has one)
+                if zero_in == "a" and ba:
+                    ba[-1] = 0
+                    if bb:
+                        bb[-1] = 1
+                elif zero_in == "b" and bb:
+                    bb[-1] = 0
+                    if ba:
+                        ba[-1] = 1
+                else:
+                    continue
+                sa, sb = tuple(ba) + (m, k), tuple(bb) + (k, n)
+                fa, fb = str(rng.choice(RANK_FMTS)), str(rng.choice(RANK_FMTS))
+                if fa == "nd" and fb == "nd":
+                    fa = "coo"
+                da, db = small_dense(rng, sa, density=0.8), small_dense(rng, sb, density=0.8)
+                out.append({"op": "matmul" if rng.random() < 0.7 else "@", "a": spec_of(da, fa, gen.compressed_axes_choices(da.ndim)[0] if fa == "gcxs" and da.ndim >= 2 else None),
+                            "b": spec_of(db, fb, gen.compressed_axes_choices(db.ndim)[0] if fb == "gcxs" and db.ndim >= 2 else None)})
     return out
 
 
@@ -967,6 +994,76 @@ def leg_c(ctx, rng, pool, active, n, extra=(), corpus=True):
     ctx.notes["hang_region_cases"] = ctx.notes.get("hang_region_cases", 0) + hang_n
 
 
+def leg_c_complex(ctx, rng, n):
+    """products of operands with genuinely COMPLEX values (non-zero imaginary parts) and MIXED element dtypes (complex x real, real x
+    complex, float x int, narrow ints): conjugation in vecdot, accumulator dtypes, promotion.  In-process (no zero extents here, so the
+    non-returning region of the watchdogged legs is not reachable); values are small Gaussian integers, exact in every dtype used."""
+    import sparse
+
+    pairs = [("complex128", "complex128"), ("complex128", "float64"), ("float64", "complex128"), ("complex64", "int64"), ("int64", "complex128"),
+             ("complex64", "complex128"), ("float32", "int64"), ("int8", "float64"), ("uint8", "int64"), ("bool", "complex128")]
+
+    def arr(shape, dt):
+        v = rng.integers(-3, 4, size=shape)
+        mask = rng.random(size=shape) < 0.6
+        if np.dtype(dt).kind == "c":
+            v = v + 1j * rng.integers(-3, 4, size=shape)
+        elif np.dtype(dt).kind in "ub":
+            v = np.abs(v)
+        return np.where(mask, v, 0).astype(dt)
+
+    def mk(d, fmt):
+        if fmt == "nd":
+            return d
+        if fmt == "coo":
+            return sparse.COO.from_numpy(d)
+        ch = gen.compressed_axes_choices(d.ndim)
+        ca = ch[int(rng.integers(len(ch)))]
+        return sparse.GCXS.from_numpy(d, compressed_axes=ca) if ca is not None else sparse.GCXS.from_numpy(d)
+
+    for k in range(n):
+        ta, tb = pairs[int(rng.integers(len(pairs)))]
+        op = str(rng.choice(["vecdot", "vecdot", "dot", "matmul", "tensordot", "einsum", "kron", "outer"]))
+        m, kk, nn = (int(v) for v in rng.integers(1, 5, size=3))
+        if op == "vecdot":
+            shp = (m, kk) if rng.random() < 0.6 else (kk,)
+            da, db = arr(shp, ta), arr(shp, tb)
+            axis = int(rng.integers(-len(shp), len(shp)))
+            f = lambda A, B, axis=axis: sparse.vecdot(A, B, axis=axis)  # noqa: E731
+            r = lambda axis=axis: np.vecdot(da, db, axis=axis)  # noqa: E731
+        elif op in ("dot", "matmul"):
+            da, db = arr((m, kk), ta), arr((kk, nn), tb)
+            f = (lambda A, B: sparse.dot(A, B)) if op == "dot" else (lambda A, B: sparse.matmul(A, B))  # noqa: E731
+            r = (lambda: np.dot(da, db)) if op == "dot" else (lambda: np.matmul(da, db))  # noqa: E731
+        elif op == "tensordot":
+            da, db = arr((m, kk, 2), ta), arr((2, kk, nn), tb)
+            f = lambda A, B: sparse.tensordot(A, B, axes=([1, 2], [1, 0]))  # noqa: E731
+            r = lambda: np.tensordot(da, db, axes=([1, 2], [1, 0]))  # noqa: E731
+        elif op == "einsum":
+            da, db = arr((m, kk), ta), arr((kk, nn), tb)
+            sub = str(rng.choice(["ij,jk->ik", "ij,jk->ki", "ij,jk->i", "ij,jk->"]))
+            f = lambda A, B, sub=sub: sparse.einsum(sub, A, B)  # noqa: E731
+            r = lambda sub=sub: np.einsum(sub, da, db)  # noqa: E731
+        elif op == "kron":
+            da, db = arr((m, 2), ta), arr((2, nn), tb)
+            f, r = (lambda A, B: sparse.kron(A, B)), (lambda: np.kron(da, db))
+        else:
+            da, db = arr((m,), ta), arr((nn,), tb)
+            f, r = (lambda A, B: sparse.outer(A, B)), (lambda: np.outer(da, db))
+        fa, fb = str(rng.choice(["coo", "gcxs", "nd"])), str(rng.choice(["coo", "gcxs", "nd"]))
+        if fa == "nd" and fb == "nd":
+            fa = "coo"
+        if op in ("einsum", "kron") and "nd" in (fa, fb) and op == "einsum":
+            fa = fb = "coo" if fa == "nd" else fa
+        A, B = mk(da, fa), mk(db, fb)
+        case = {"op": op, "dtypes": [ta, tb], "formats": [fa, fb], "a": {"shape": list(da.shape), "real": np.real(da).tolist(), "imag": np.imag(da).tolist()},
+                "b": {"shape": list(db.shape), "real": np.real(db).tolist(), "imag": np.imag(db).tolist()}}
+        ctx.case(f"C:mixed-dtype:{op}", case, nontrivial=True)
+        msg = oracle.compare(lambda: f(A, B), r, must_be_sparse=False, check_canonical=False)
+        if msg:
+            ctx.fail("C", f"mixed-dtype:{op}", case, msg, finding=findings_c04.classify(f"mixed-dtype:{op}", case, msg))
+
+
 def run(ctx):
     ctx.trusted = TRUSTED
     ctx.assumptions = ["NumPy's functions are the specification", "element values are small integers (exact arithmetic); int64 only in the quick tier",
@@ -1029,6 +1126,7 @@ def run(ctx):
             pass
     lap("compare")
     extra_ops.finish_child(ctx, extra_child)
+    leg_c_complex(ctx, rng, 150 if ctx.quick else 3000)
     lap("extra_ops")
     ctx.notes["watchdog"] = {"hangs": pool.hangs, "crashes": pool.crashes}
     if os.environ.get("C04_DUMP"):  # development aid: every non-agreement of this run
